@@ -7,5 +7,5 @@ cp -r /repo/src "$D/src"
 sed -i "$3" "$D/src/resonaate/$2"
 if diff -q "$D/src/resonaate/$2" "/repo/src/resonaate/$2" >/dev/null; then echo "MUTANT DID NOT APPLY"; rm -rf "$D"; exit 9; fi
 cd /verif
-PYTHONPATH="$D/src" PYVC_REPO_SRC="$D/src" .venv/bin/python -m pyvc.cli check "$1" 2>&1 | grep -E "VIOLATION|UNDECIDED|CRASH|^$1:" | cut -c1-220
+PYTHONPATH="$D/src" PYVC_REPO_SRC="$D/src" PYVC_EVIDENCE_DIR="$D/evidence" .venv/bin/python -m pyvc.cli check "$1" 2>&1 | grep -E "VIOLATION|UNDECIDED|CRASH|^$1:" | cut -c1-220
 rm -rf "$D"
